@@ -62,6 +62,11 @@ class InexactValue(Exception):
     pass
 
 
+class TieBroken(Exception):
+    """the tie between model and source (translator / abstraction) no longer holds"""
+    pass
+
+
 def flat_zi(a):
     a = np.asarray(a)
     re_ = np.real(a).ravel()
